@@ -41,8 +41,8 @@ def checkMethodPermF (bad : Name → Bool) (badRule : Bool) (env : Env) (rule : 
 
 /-! ### the transaction -/
 
+/-- one contract request of a transaction -/
 inductive Act where
-  | transfer                    -- no contract request
   | call                        -- a call of the contract method whose stored rule is `TxChain.mrule`
   | setAcl (a : Name)           -- $acl.SetAccountAcl: writes XCAccount/<a> (+ the key-to-account index)
   | newAcc (a : Name)           -- $acl.NewAccount:    writes XCAccount/<a> (+ the key-to-account index)
@@ -55,7 +55,7 @@ structure Tx where
   auth   : List URI             -- `tx.AuthRequire`
   usig   : List (Option Name)   -- `tx.AuthRequireSigns`, likewise
   inputs : List Name            -- owners of `tx.TxInputs`, in order
-  act    : Act
+  acts   : List Act             -- `tx.ContractRequests`, in order (`[]`: a plain transfer)
 deriving Repr
 
 /-- the chain a transaction is verified against -/
@@ -65,7 +65,7 @@ structure TxChain where
   pendOwner : Nat → Bool        -- the newest version of the owner entry is an unconfirmed one
   mrule     : Option Rule       -- stored rule of the callable contract method
   bad       : Name → Bool       -- read fault: the rule stored under this name cannot be read
-  badM      : Bool              -- read fault on the rule of the method the transaction's request names
+  badM      : Act → Bool        -- read fault on the stored rule of the method this request names
 
 /-- `IdentifyAK(uri, sign)`: the signature must be a valid one of the key named by the LAST component -/
 def lastSigned (u : URI) (s : Option Name) : Bool :=
@@ -124,15 +124,12 @@ def methodRuleOf (ch : TxChain) : Act → Option Rule
   | .call => ch.mrule
   | _ => none                   -- no rule is stored for the kernel's own methods
 
-/-- `verifyContractPermission` -/
+/-- `verifyContractPermission`: every request, in order -/
 def verifyContractPerm (ch : TxChain) (tx : Tx) : Bool :=
-  match tx.act with
-  | .transfer => true
-  | a => checkMethodPermF ch.bad ch.badM ch.env (methodRuleOf ch a) (authUsers tx.init tx.auth)
+  tx.acts.all (fun a => checkMethodPermF ch.bad (ch.badM a) ch.env (methodRuleOf ch a) (authUsers tx.init tx.auth))
 
 /-- the write set a pre-execution of the request produces, by bucket -/
 def writesOf : Act → List Write
-  | .transfer => []
   | .call => [.other]
   | .setAcl a => [.other, .account a]
   | .newAcc a => [.other, .account a]
@@ -160,8 +157,10 @@ def verifyWritesG (ident : Name → Bool) (own : Nat → Option Name) : List Wri
 /-- `verifyContractOwnerPermission` reads the NEWEST version of the owner entry and refuses an unconfirmed one -/
 def ownerInForce (ch : TxChain) (c : Nat) : Option Name := if ch.pendOwner c then none else ch.owner c
 
+/-- `verifyRWSetPermission` on the write set of the requests (without requests it passes directly, and the write set
+is empty) -/
 def verifyRW (ch : TxChain) (tx : Tx) (ver : List Name) : Bool :=
-  verifyWritesG (fun a => identifyAccountF ch.bad ch.env a tx.auth) (ownerInForce ch) (writesOf tx.act) ver
+  verifyWritesG (fun a => identifyAccountF ch.bad ch.env a tx.auth) (ownerInForce ch) (tx.acts.flatMap writesOf) ver
 
 /-- the access-control stages of `State.ImmediateVerifyTx`, in the order of the code: signatures, token inputs,
 contract method rules, write set -/
@@ -174,6 +173,6 @@ def verifyTx (ch : TxChain) (tx : Tx) : Bool :=
     | some ver' => verifyContractPerm ch tx && verifyRW ch tx ver'
 
 /-- the same chain without read faults -/
-def TxChain.clean (ch : TxChain) : TxChain := { ch with bad := fun _ => false, badM := false }
+def TxChain.clean (ch : TxChain) : TxChain := { ch with bad := fun _ => false, badM := fun _ => false }
 
 end XV.Acl
